@@ -83,6 +83,28 @@ Proof.
     fold (no_crlf t) in Ht. rewrite (IH rest Ht). reflexivity.
 Qed.
 
+Lemma split_line_lf e : lf_is_eol e = true -> forall l rest, no_crlf l = true ->
+  split_line e (l ++ 10 :: rest) = Some (l, rest).
+Proof.
+  intros He. induction l as [|c t IH]; intros rest H.
+  - cbn [app split_line]. rewrite He. reflexivity.
+  - cbn [no_crlf forallb] in H. apply andb_true_iff in H. destruct H as [H Ht].
+    apply andb_true_iff in H. destruct H as [H13 H10].
+    apply negb_true_iff in H13. apply negb_true_iff in H10.
+    cbn [app split_line]. rewrite H13, H10. cbn [andb].
+    fold (no_crlf t) in Ht. rewrite (IH rest Ht). reflexivity.
+Qed.
+
+Lemma next_line_eol m l eo rest : no_crlf l = true -> len l <= m ->
+  next_line m ECrLfLf (l ++ eol_b eo ++ rest) = LLine l rest.
+Proof.
+  intros H L. unfold next_line. destruct eo; cbn [eol_b app].
+  - rewrite split_line_crlf by exact H.
+    destruct (m <? len l) eqn:E; [apply Z.ltb_lt in E; lia|]. reflexivity.
+  - rewrite split_line_lf by (try reflexivity; exact H).
+    destruct (m <? len l) eqn:E; [apply Z.ltb_lt in E; lia|]. reflexivity.
+Qed.
+
 Lemma next_line_crlf m e l rest : no_crlf l = true -> len l <= m ->
   next_line m e (l ++ CRLF ++ rest) = LLine l rest.
 Proof.
@@ -94,18 +116,16 @@ Qed.
 (* header lines: any SP / HTAB padding around the colon                 *)
 (* ------------------------------------------------------------------ *)
 Lemma name_ok_parts n : name_ok n = true ->
-  n <> [] /\ forallb (fun c => negb (c =? 58)) n = true /\ no_ws is_ws_u n = true /\ lower n = n.
+  n <> [] /\ forallb (fun c => negb (c =? 58)) n = true /\ no_ws is_ws_u n = true.
 Proof.
   unfold name_ok. intros H. apply andb_true_iff in H. destruct H as [Hn H].
   split; [destruct n; [discriminate|congruence]|].
-  assert (A : forall c, In c n -> negb (c =? 58) = true /\ negb (is_ws_u c) = true /\ lower_c c = c).
+  assert (A : forall c, In c n -> negb (c =? 58) = true /\ negb (is_ws_u c) = true).
   { rewrite forallb_forall in H. intros c Hc. specialize (H c Hc).
-    apply andb_true_iff in H. destruct H as [H H3]. apply andb_true_iff in H. destruct H as [H1 H2].
-    apply Z.eqb_eq in H3. auto. }
+    apply andb_true_iff in H. destruct H as [H1 H2]. auto. }
   repeat split.
   - apply forallb_forall. intros c Hc. apply A. exact Hc.
   - apply forallb_forall. intros c Hc. apply A. exact Hc.
-  - unfold lower. rewrite <- (map_id n) at 2. apply map_ext_in. intros c Hc. apply A. exact Hc.
 Qed.
 
 Lemma sp_no_colon p : forallb is_sp p = true -> forallb (fun c => negb (c =? 58)) p = true.
@@ -119,11 +139,11 @@ Proof. intros H. cbn. rewrite H. reflexivity. Qed.
 
 Lemma header_line_render h hs : hline_ok h = true ->
   header_line (hl_name h ++ hl_pre h ++ [58] ++ hl_post h ++ hl_value h) hs
-  = Some (aset (hl_name h) (hl_value h) hs).
+  = Some (aset (lower (hl_name h)) (hl_value h) hs).
 Proof.
   unfold hline_ok. intros H. apply andb_true_iff in H. destruct H as [H Hpost].
   apply andb_true_iff in H. destruct H as [H Hpre]. apply andb_true_iff in H. destruct H as [Hn Hv].
-  destruct (name_ok_parts _ Hn) as [Hne [Hnc [Hnw Hnl]]].
+  destruct (name_ok_parts _ Hn) as [Hne [Hnc Hnw]].
   unfold value_ok in Hv. apply andb_true_iff in Hv. destruct Hv as [_ Hv]. apply beq_eq in Hv.
   unfold header_line.
   rewrite app_assoc. cbn [app].
@@ -135,7 +155,7 @@ Proof.
     { destruct (hl_name h) as [|c t]; [congruence|]. cbn [app]. apply lstrip_head.
       cbn in Hnw. apply andb_true_iff in Hnw. destruct Hnw as [Hc _]. apply negb_true_iff in Hc. exact Hc. }
     rewrite L. rewrite rstrip_all by (apply forallb_sp_ws; exact Hpre).
-    rewrite rstrip_no_ws by exact Hnw. exact Hnl.
+    rewrite rstrip_no_ws by exact Hnw. reflexivity.
   - unfold strip. rewrite lstrip_all by (apply forallb_sp_ws; exact Hpost). exact Hv.
 Qed.
 
@@ -144,7 +164,7 @@ Lemma render_hline_no_crlf h : hline_ok h = true ->
 Proof.
   unfold hline_ok. intros H. apply andb_true_iff in H. destruct H as [H Hpost].
   apply andb_true_iff in H. destruct H as [H Hpre]. apply andb_true_iff in H. destruct H as [Hn Hv].
-  destruct (name_ok_parts _ Hn) as [_ [_ [Hnw _]]].
+  destruct (name_ok_parts _ Hn) as [_ [_ Hnw]].
   unfold value_ok in Hv. apply andb_true_iff in Hv. destruct Hv as [Hv _].
   unfold no_crlf in *. rewrite !forallb_app. rewrite Hv. cbn [forallb]. cbn.
   assert (S : forall p, forallb is_sp p = true ->
@@ -209,43 +229,48 @@ Qed.
 (* numerals                                                            *)
 (* ------------------------------------------------------------------ *)
 
-Lemma digit_val_dchar base d : base <= 16 -> 0 <= d < base -> digit_val base (dchar d) = Some d.
+Lemma digit_cases base d : base = 10 \/ base = 16 -> 0 <= d < dbound base ->
+  (base = 10 /\ (d = 0 \/ d = 1 \/ d = 2 \/ d = 3 \/ d = 4 \/ d = 5 \/ d = 6 \/ d = 7 \/ d = 8 \/ d = 9)) \/ (base = 16 /\ (d = 0 \/ d = 1 \/ d = 2 \/ d = 3 \/ d = 4 \/ d = 5 \/ d = 6 \/ d = 7 \/ d = 8 \/ d = 9 \/ d = 10 \/ d = 11 \/ d = 12 \/ d = 13 \/ d = 14 \/ d = 15 \/ d = 16 \/ d = 17 \/ d = 18 \/ d = 19 \/ d = 20 \/ d = 21)).
 Proof.
-  intros Hb Hd. unfold digit_val, dchar.
-  destruct (d <? 10) eqn:E.
-  - apply Z.ltb_lt in E.
-    replace ((48 <=? 48 + d) && (48 + d <=? 57)) with true
-      by (symmetry; apply andb_true_iff; split; apply Z.leb_le; lia).
-    replace (48 + d - 48) with d by lia.
-    destruct (d <? base) eqn:F; [reflexivity|apply Z.ltb_ge in F; lia].
-  - apply Z.ltb_ge in E.
-    replace ((48 <=? 87 + d) && (87 + d <=? 57)) with false
-      by (symmetry; apply andb_false_iff; right; apply Z.leb_gt; lia).
-    replace ((97 <=? 87 + d) && (87 + d <=? 122)) with true
-      by (symmetry; apply andb_true_iff; split; apply Z.leb_le; lia).
-    replace (87 + d - 87) with d by lia.
-    destruct (d <? base) eqn:F; [reflexivity|apply Z.ltb_ge in F; lia].
+  intros [Hb|Hb] Hd; subst base; [change (dbound 10) with 10 in Hd; left|change (dbound 16) with 22 in Hd; right]; split; try reflexivity; lia.
 Qed.
 
-Lemma dchar_not_us base d : base <= 16 -> 0 <= d < base -> (dchar d =? 95) = false.
-Proof. intros Hb Hd. unfold dchar. destruct (d <? 10) eqn:E; apply Z.eqb_neq; [apply Z.ltb_lt in E|apply Z.ltb_ge in E]; lia. Qed.
+Ltac digit_enum H :=
+  destruct H as [[-> H]|[-> H]];
+  repeat (destruct H as [H|H]; [subst|]); try subst.
 
-Lemma digits_val_map base : base <= 16 -> forall ds acc, digits_ok base ds = true ->
+Lemma digit_val_dchar base d : base = 10 \/ base = 16 -> 0 <= d < dbound base ->
+  digit_val base (dchar d) = Some (dv d).
+Proof. intros Hb Hd. pose proof (digit_cases base d Hb Hd) as H. digit_enum H; reflexivity. Qed.
+
+Lemma dchar_range base d : base = 10 \/ base = 16 -> 0 <= d < dbound base -> 48 <= dchar d <= 102 /\
+  dchar d <> 59 /\ dchar d <> 95 /\ dchar d <> 88 /\ (dchar d < 58 \/ 65 <= dchar d <= 70 \/ 97 <= dchar d).
+Proof. intros Hb Hd. pose proof (digit_cases base d Hb Hd) as H. digit_enum H; vm_compute; intuition congruence. Qed.
+
+Lemma dchar_not_us base d : base = 10 \/ base = 16 -> 0 <= d < dbound base -> (dchar d =? 95) = false.
+Proof. intros Hb Hd. pose proof (dchar_range base d Hb Hd). apply Z.eqb_neq. lia. Qed.
+
+Lemma digits_ok_in base ds d : digits_ok base ds = true -> In d ds -> 0 <= d < dbound base.
+Proof.
+  intros H Hd. unfold digits_ok in H. rewrite forallb_forall in H. specialize (H d Hd).
+  apply andb_true_iff in H. destruct H as [H0 H1]. apply Z.leb_le in H0. apply Z.ltb_lt in H1. lia.
+Qed.
+
+Lemma digits_val_map base : base = 10 \/ base = 16 -> forall ds acc, digits_ok base ds = true ->
   digits_val base acc false (map dchar ds) = Some (dval base ds acc).
 Proof.
   intros Hb. induction ds as [|d ds IH]; intros acc H; [reflexivity|].
-  cbn [digits_ok forallb] in H. apply andb_true_iff in H. destruct H as [Hd Hds].
-  apply andb_true_iff in Hd. destruct Hd as [H0 H1]. apply Z.leb_le in H0. apply Z.ltb_lt in H1.
-  cbn [map digits_val]. rewrite (dchar_not_us base) by lia. rewrite digit_val_dchar by lia.
+  pose proof (digits_ok_in base (d :: ds) d H (or_introl eq_refl)) as Hd.
+  cbn [digits_ok forallb] in H. apply andb_true_iff in H. destruct H as [_ Hds].
+  cbn [map digits_val]. rewrite (dchar_not_us base) by assumption. rewrite digit_val_dchar by assumption.
   apply IH. exact Hds.
 Qed.
 
-Lemma dchar_facts base d : base <= 16 -> 0 <= d < base ->
+Lemma dchar_facts base d : base = 10 \/ base = 16 -> 0 <= d < dbound base ->
   is_ws_int (dchar d) = false /\ (dchar d =? 43) = false /\ (dchar d =? 45) = false /\
   (dchar d =? 120) = false /\ (dchar d =? 88) = false /\ (dchar d <? 128) = true /\ is_ws_b (dchar d) = false.
 Proof.
-  intros Hb Hd. unfold dchar, is_ws_int, is_ws_b.
-  destruct (d <? 10) eqn:E; [apply Z.ltb_lt in E|apply Z.ltb_ge in E];
+  intros Hb Hd. pose proof (dchar_range base d Hb Hd) as R. unfold is_ws_int, is_ws_b.
   repeat split;
   repeat match goal with
          | |- (_ =? _) = false => apply Z.eqb_neq; lia
@@ -253,10 +278,10 @@ Proof.
          | |- _ || _ = false => apply orb_false_iff; split
          | |- _ && _ = false => apply andb_false_iff
          end.
-  all: try (left; apply Z.leb_gt; lia); try (right; apply Z.leb_gt; lia).
+  all: try (right; apply Z.leb_gt; lia).
 Qed.
 
-Lemma digits_no_ws base ds : base <= 16 -> digits_ok base ds = true -> no_ws is_ws_int (map dchar ds) = true.
+Lemma digits_no_ws base ds : base = 10 \/ base = 16 -> digits_ok base ds = true -> no_ws is_ws_int (map dchar ds) = true.
 Proof.
   intros Hb H. unfold no_ws, digits_ok in *. rewrite forallb_forall in *. intros x Hx.
   apply in_map_iff in Hx. destruct Hx as [d [<- Hd]]. specialize (H d Hd).
@@ -264,19 +289,19 @@ Proof.
   destruct (dchar_facts base d Hb (conj H0 H1)) as [W _]. rewrite W. reflexivity.
 Qed.
 
-Lemma count_digits_map base ds : base <= 16 -> digits_ok base ds = true -> count_digits (map dchar ds) = len ds.
+Lemma count_digits_map base ds : base = 10 \/ base = 16 -> digits_ok base ds = true -> count_digits (map dchar ds) = len ds.
 Proof.
   intros Hb H. unfold count_digits, len. f_equal.
   induction ds as [|d ds IH]; [reflexivity|].
   cbn [digits_ok forallb] in H. apply andb_true_iff in H. destruct H as [Hd Hds].
   apply andb_true_iff in Hd. destruct Hd as [H0 H1]. apply Z.leb_le in H0. apply Z.ltb_lt in H1.
-  cbn [map filter]. rewrite (dchar_not_us base) by lia. cbn [negb length]. f_equal. apply IH. exact Hds.
+  cbn [map filter]. rewrite (dchar_not_us base) by (try assumption; lia). cbn [negb length]. f_equal. apply IH. exact Hds.
 Qed.
 
 Lemma py_int_digits base ds : base = 10 \/ base = 16 -> ds <> [] -> digits_ok base ds = true ->
   len ds <= 4300 -> py_int base (map dchar ds) = Some (dval base ds 0).
 Proof.
-  intros Hb Hne Hok Hlen. assert (Hb16 : base <= 16) by lia.
+  intros Hb Hne Hok Hlen. pose proof Hb as Hb16.
   unfold py_int. rewrite strip_no_ws by (apply (digits_no_ws base); assumption).
   destruct ds as [|d ds]; [congruence|].
   pose proof Hok as Hok'. cbn [digits_ok forallb] in Hok. apply andb_true_iff in Hok. destruct Hok as [Hd Hds].
@@ -306,8 +331,8 @@ Proof.
   rewrite (count_digits_map base) by assumption.
   replace ((base =? 10) && (4300 <? len (d :: ds))) with false
     by (symmetry; apply andb_false_iff; right; apply Z.ltb_ge; exact Hlen).
-  cbn [map digits_top]. rewrite digit_val_dchar by lia.
-  rewrite digits_val_map by assumption. reflexivity.
+  cbn [map digits_top]. rewrite digit_val_dchar by (try assumption; lia).
+  cbn [dval fold_left]. rewrite digits_val_map by assumption. reflexivity.
 Qed.
 
 (* ------------------------------------------------------------------ *)
@@ -350,7 +375,7 @@ Proof. intros H x y. unfold http_step. rewrite H. discriminate. Qed.
 (* header block                                                        *)
 (* ------------------------------------------------------------------ *)
 Definition fold_lines (lines : list hline) (h : hdrs) : hdrs :=
-  fold_left (fun acc l => aset (hl_name l) (hl_value l) acc) lines h.
+  fold_left (fun acc l => aset (lower (hl_name l)) (hl_value l) acc) lines h.
 
 Lemma aset_length {V} k (v : V) : forall h, (length (aset k v h) <= S (length h))%nat.
 Proof. induction h as [|[k' v'] t IH]; cbn; [lia|]. destruct (beq k k'); cbn; lia. Qed.
@@ -358,23 +383,23 @@ Proof. induction h as [|[k' v'] t IH]; cbn; [lia|]. destruct (beq k k'); cbn; li
 Lemma fold_lines_length : forall lines h, (length (fold_lines lines h) <= length lines + length h)%nat.
 Proof.
   induction lines as [|l ls IH]; intros h; cbn; [lia|].
-  unfold fold_lines in *. specialize (IH (aset (hl_name l) (hl_value l) h)).
-  pose proof (aset_length (hl_name l) (hl_value l) h). lia.
+  unfold fold_lines in *. specialize (IH (aset (lower (hl_name l)) (hl_value l) h)).
+  pose proof (aset_length (lower (hl_name l)) (hl_value l) h). lia.
 Qed.
 
 Definition line_len_ok (cf : cfg) (l : hline) : bool :=
   len (hl_name l ++ hl_pre l ++ [58] ++ hl_post l ++ hl_value l) <=? maxline cf.
 
 Lemma render_hline_shape l rest :
-  render_hline l ++ rest = (hl_name l ++ hl_pre l ++ [58] ++ hl_post l ++ hl_value l) ++ CRLF ++ rest.
+  render_hline l ++ rest = (hl_name l ++ hl_pre l ++ [58] ++ hl_post l ++ hl_value l) ++ eol_b (hl_end l) ++ rest.
 Proof. unfold render_hline. rewrite <- !app_assoc. reflexivity. Qed.
 
 Lemma leader_step_line cf h l rest : hline_ok l = true -> line_len_ok cf l = true ->
-  Z.of_nat (length (aset (hl_name l) (hl_value l) h)) <= maxhdrs cf ->
-  leader_step cf h (render_hline l ++ rest) = LdMore (aset (hl_name l) (hl_value l) h) rest.
+  Z.of_nat (length (aset (lower (hl_name l)) (hl_value l) h)) <= maxhdrs cf ->
+  leader_step cf h (render_hline l ++ rest) = LdMore (aset (lower (hl_name l)) (hl_value l) h) rest.
 Proof.
   intros Hok Hlen Hmax. unfold leader_step. rewrite render_hline_shape.
-  rewrite next_line_crlf; [|apply render_hline_no_crlf; exact Hok|apply Z.leb_le; exact Hlen].
+  rewrite next_line_eol; [|apply render_hline_no_crlf; exact Hok|apply Z.leb_le; exact Hlen].
   destruct (is_nil _) eqn:En.
   - exfalso. unfold hline_ok in Hok. apply andb_true_iff in Hok. destruct Hok as [Hok _].
     apply andb_true_iff in Hok. destruct Hok as [Hok _]. apply andb_true_iff in Hok. destruct Hok as [Hn _].
@@ -383,11 +408,11 @@ Proof.
     destruct (maxhdrs cf <? _) eqn:E; [apply Z.ltb_lt in E; lia|]. reflexivity.
 Qed.
 
-Lemma leader_step_end cf h rest : 0 <= maxline cf -> Z.of_nat (length h) <= maxhdrs cf ->
-  leader_step cf h (CRLF ++ rest) = LdDone h rest.
+Lemma leader_step_end cf h e1 rest : 0 <= maxline cf -> Z.of_nat (length h) <= maxhdrs cf ->
+  leader_step cf h (eol_b e1 ++ rest) = LdDone h rest.
 Proof.
-  intros H0 Hm. unfold leader_step. change (CRLF ++ rest) with ([] ++ CRLF ++ rest).
-  rewrite next_line_crlf; [|reflexivity|unfold len; cbn; lia]. cbn [is_nil].
+  intros H0 Hm. unfold leader_step. change (eol_b e1 ++ rest) with ([] ++ eol_b e1 ++ rest).
+  rewrite next_line_eol; [|reflexivity|unfold len; cbn; lia]. cbn [is_nil].
   destruct (maxhdrs cf <? _) eqn:E; [apply Z.ltb_lt in E; lia|]. reflexivity.
 Qed.
 
@@ -401,13 +426,13 @@ Lemma leader_reach cf (mk : hdrs -> stage) (fin : pst -> hdrs -> pst) :
                               | LdDone h' r => Adv (fin s h') r
                               end) ->
   0 <= maxline cf ->
-  forall lines s h rest, p_stage s = mk h ->
+  forall lines s h e1 rest, p_stage s = mk h ->
     forallb hline_ok lines = true -> forallb (line_len_ok cf) lines = true ->
     Z.of_nat (length lines + length h) <= maxhdrs cf ->
-    reach cf false s (render_hlines lines ++ CRLF ++ rest)
+    reach cf false s (render_hlines lines ++ eol_b e1 ++ rest)
           (fin (set_stage s (mk (fold_lines lines h))) (fold_lines lines h)) rest.
 Proof.
-  intros Hstep H0. induction lines as [|l ls IH]; intros s h rest Hs Hok Hlen Hmax.
+  intros Hstep H0. induction lines as [|l ls IH]; intros s h e1 rest Hs Hok Hlen Hmax.
   - cbn [render_hlines flat_map app fold_lines fold_left].
     apply reach_one. rewrite (Hstep s h _ Hs). rewrite leader_step_end; [|exact H0|cbn in Hmax; lia].
     replace (set_stage s (mk h)) with s; [reflexivity|].
@@ -415,14 +440,14 @@ Proof.
   - cbn [forallb] in Hok, Hlen. apply andb_true_iff in Hok. destruct Hok as [Hl Hls].
     apply andb_true_iff in Hlen. destruct Hlen as [Ll Lls].
     cbn [render_hlines flat_map]. rewrite <- app_assoc.
-    pose proof (aset_length (hl_name l) (hl_value l) h) as AL.
+    pose proof (aset_length (lower (hl_name l)) (hl_value l) h) as AL.
     eapply reach_step.
     + rewrite (Hstep s h _ Hs). rewrite leader_step_line; [reflexivity|exact Hl|exact Ll|]. cbn [length] in Hmax. lia.
     + cbn [fold_lines fold_left].
-      specialize (IH (set_stage s (mk (aset (hl_name l) (hl_value l) h))) (aset (hl_name l) (hl_value l) h) rest).
-      replace (set_stage (set_stage s (mk (aset (hl_name l) (hl_value l) h)))
-                         (mk (fold_lines ls (aset (hl_name l) (hl_value l) h))))
-        with (set_stage s (mk (fold_lines ls (aset (hl_name l) (hl_value l) h)))) in IH by reflexivity.
+      specialize (IH (set_stage s (mk (aset (lower (hl_name l)) (hl_value l) h))) (aset (lower (hl_name l)) (hl_value l) h) e1 rest).
+      replace (set_stage (set_stage s (mk (aset (lower (hl_name l)) (hl_value l) h)))
+                         (mk (fold_lines ls (aset (lower (hl_name l)) (hl_value l) h))))
+        with (set_stage s (mk (fold_lines ls (aset (lower (hl_name l)) (hl_value l) h)))) in IH by reflexivity.
       apply IH; [reflexivity|exact Hls|exact Lls|]. cbn [length] in Hmax. lia.
 Qed.
 
@@ -447,17 +472,17 @@ Proof.
   cbn [nth_tok nth]. rewrite HM, HU. destruct v11; reflexivity.
 Qed.
 
-Lemma step_start_req cf method url v11 rest :
+Lemma step_start_req cf method url v11 e0 rest :
   tok_ok method = true -> existsb (beq method) METHODS = true -> tok_ok url = true -> url_ok cf url = true ->
   len (request_line method url v11) <= maxline cf ->
-  http_step cf false (init_pst false false) (request_line method url v11 ++ CRLF ++ rest)
+  http_step cf false (init_pst false false) (request_line method url v11 ++ eol_b e0 ++ rest)
   = Adv (set_start (init_pst false false) [method; url] (if v11 then 1 else 0) (-1) (SLeader [])) rest.
 Proof.
   intros Hm HM Hu HU HL. unfold http_step. cbn [init_pst p_stage p_resp andb].
-  assert (Hn : is_nil (request_line method url v11 ++ CRLF ++ rest) = false).
+  assert (Hn : is_nil (request_line method url v11 ++ eol_b e0 ++ rest) = false).
   { unfold request_line. cbn [join_with]. apply tok_nonnil in Hm. destruct method; [discriminate|reflexivity]. }
   rewrite Hn. cbn [andb].
-  rewrite next_line_crlf; [|apply join_no_crlf; cbn [forallb]; rewrite Hm, Hu, version_tok; reflexivity|exact HL].
+  rewrite next_line_eol; [|apply join_no_crlf; cbn [forallb]; rewrite Hm, Hu, version_tok; reflexivity|exact HL].
   rewrite parse_request_line_ok by assumption. reflexivity.
 Qed.
 
@@ -481,7 +506,7 @@ Proof.
 Qed.
 
 (* REQUEST, no body or Content-Length body *)
-Lemma request_fixed_roundtrip cf method url v11 lines body rest :
+Lemma request_fixed_roundtrip cf method url v11 e0 lines e1 body rest :
   0 <= maxline cf ->
   tok_ok method = true -> existsb (beq method) METHODS = true -> tok_ok url = true -> url_ok cf url = true ->
   len (request_line method url v11) <= maxline cf ->
@@ -489,7 +514,7 @@ Lemma request_fixed_roundtrip cf method url v11 lines body rest :
   Z.of_nat (length lines) <= maxhdrs cf ->
   is_chunked (hdrs_of lines) = false -> request_length (hdrs_of lines) = Some (len body) ->
   http_feed cf (init_pst false false, [])
-            (head_bytes (request_line method url v11) lines ++ body ++ rest)
+            (head_bytes (request_line method url v11) e0 lines e1 ++ body ++ rest)
   = (with_body (req_headed method url v11 lines) body [], rest).
 Proof.
   intros H0 Hm HM Hu HU HL Hok Hlen Hmax Hch Hrl.
@@ -497,7 +522,7 @@ Proof.
   unfold head_bytes. rewrite <- !app_assoc.
   eapply reach_step; [apply step_start_req; assumption|].
   eapply reach_trans.
-  - apply (leader_reach cf SLeader head_done (step_leader cf) H0 lines _ [] (body ++ rest)); try assumption.
+  - apply (leader_reach cf SLeader head_done (step_leader cf) H0 lines _ [] e1 (body ++ rest)); try assumption.
     + reflexivity.
     + cbn [length]. lia.
   - apply reach_one.
@@ -510,12 +535,15 @@ Proof.
 Qed.
 
 (* ---- what a header block announces ---- *)
-Lemma dval_nonneg base : 0 <= base -> forall ds acc, digits_ok base ds = true -> 0 <= acc -> 0 <= dval base ds acc.
+Lemma dv_range base d : base = 10 \/ base = 16 -> 0 <= d < dbound base -> 0 <= dv d < base.
+Proof. intros Hb Hd. pose proof (digit_cases base d Hb Hd) as H. digit_enum H; vm_compute; split; congruence. Qed.
+
+Lemma dval_nonneg base : base = 10 \/ base = 16 -> forall ds acc, digits_ok base ds = true -> 0 <= acc -> 0 <= dval base ds acc.
 Proof.
   intros Hb. induction ds as [|d ds IH]; intros acc H Ha; [exact Ha|].
-  cbn [digits_ok forallb] in H. apply andb_true_iff in H. destruct H as [Hd Hds].
-  apply andb_true_iff in Hd. destruct Hd as [H0 _]. apply Z.leb_le in H0.
-  cbn [dval fold_left]. apply IH; [exact Hds|]. nia.
+  pose proof (dv_range base d Hb (digits_ok_in base (d :: ds) d H (or_introl eq_refl))) as R.
+  cbn [digits_ok forallb] in H. apply andb_true_iff in H. destruct H as [_ Hds].
+  cbn [dval fold_left]. apply IH; [exact Hds|]. destruct Hb; subst base; nia.
 Qed.
 
 Lemma content_length_of_header h ds :
@@ -526,7 +554,7 @@ Proof.
   destruct ds as [|d ds']; [congruence|]. cbn [num map is_nil].
   change (dchar d :: map dchar ds') with (map dchar (d :: ds')).
   rewrite py_int_digits; [|left; reflexivity|discriminate|exact Hok|exact Hlen].
-  pose proof (dval_nonneg 10 ltac:(lia) (d :: ds') 0 Hok ltac:(lia)) as P.
+  pose proof (dval_nonneg 10 (or_introl eq_refl) (d :: ds') 0 Hok ltac:(lia)) as P.
   destruct (dval 10 (d :: ds') 0 <? 0) eqn:E; [apply Z.ltb_lt in E; lia|]. reflexivity.
 Qed.
 
@@ -563,10 +591,9 @@ Lemma num_tok ds : ds <> [] -> digits_ok 10 ds = true -> tok_ok (num ds) = true.
 Proof.
   intros Hne Hok. unfold tok_ok. apply andb_true_iff. split.
   - destruct ds; [congruence|reflexivity].
-  - unfold no_ws, num, digits_ok in *. rewrite forallb_forall in *. intros x Hx.
-    apply in_map_iff in Hx. destruct Hx as [d [<- Hd]]. specialize (Hok d Hd).
-    apply andb_true_iff in Hok. destruct Hok as [H0 H1]. apply Z.leb_le in H0. apply Z.ltb_lt in H1.
-    unfold dchar. replace (d <? 10) with true by (symmetry; apply Z.ltb_lt; lia).
+  - unfold no_ws, num. rewrite forallb_forall. intros x Hx.
+    apply in_map_iff in Hx. destruct Hx as [d [<- Hd]].
+    pose proof (dchar_range 10 d (or_introl eq_refl) (digits_ok_in 10 ds d Hok Hd)) as R.
     apply negb_true_iff. unfold is_ws_u, is_ws_b.
     repeat (apply orb_false_iff; split); try (apply Z.eqb_neq; lia);
       apply andb_false_iff; right; apply Z.leb_gt; lia.
@@ -575,9 +602,9 @@ Qed.
 Lemma dval3_lt ds : length ds = 3%nat -> digits_ok 10 ds = true -> dval 10 ds 0 <= 999.
 Proof.
   intros L H. destruct ds as [|a [|b [|c [|? ?]]]]; try discriminate.
-  cbn [digits_ok forallb] in H. repeat (apply andb_true_iff in H; destruct H as [? H]).
-  repeat match goal with X : (_ && _) = true |- _ => apply andb_true_iff in X; destruct X end.
-  repeat match goal with X : (_ <=? _) = true |- _ => apply Z.leb_le in X | X : (_ <? _) = true |- _ => apply Z.ltb_lt in X end.
+  pose proof (dv_range 10 a (or_introl eq_refl) (digits_ok_in 10 _ a H (or_introl eq_refl))).
+  pose proof (dv_range 10 b (or_introl eq_refl) (digits_ok_in 10 _ b H (or_intror (or_introl eq_refl)))).
+  pose proof (dv_range 10 c (or_introl eq_refl) (digits_ok_in 10 _ c H (or_intror (or_intror (or_introl eq_refl))))).
   cbn [dval fold_left]. lia.
 Qed.
 
@@ -602,10 +629,10 @@ Proof.
   symmetry. apply orb_false_iff. split; [apply Z.ltb_ge|apply Z.ltb_ge]; lia.
 Qed.
 
-Lemma step_start_resp cf hr v11 ds reason rest :
+Lemma step_start_resp cf hr v11 ds reason e0 rest :
   status_ok ds = true -> forallb tok_ok reason = true ->
   len (status_line v11 ds reason) <= maxline cf ->
-  http_step cf false (init_pst true hr) (status_line v11 ds reason ++ CRLF ++ rest)
+  http_step cf false (init_pst true hr) (status_line v11 ds reason ++ eol_b e0 ++ rest)
   = Adv (set_start (init_pst true hr) [join_with [32] reason] (if v11 then 1 else 0) (dval 10 ds 0) (SLeader [])) rest.
 Proof.
   intros Hs Hr HL. pose proof Hs as Hs'. unfold status_ok in Hs'.
@@ -613,9 +640,9 @@ Proof.
   apply andb_true_iff in Hs'. destruct Hs' as [Hl Hok]. apply Nat.eqb_eq in Hl.
   assert (Hne : ds <> []) by (destruct ds; [discriminate|congruence]).
   unfold http_step. cbn [init_pst p_stage p_resp andb].
-  assert (Hn : is_nil (status_line v11 ds reason ++ CRLF ++ rest) = false) by (destruct v11; reflexivity).
+  assert (Hn : is_nil (status_line v11 ds reason ++ eol_b e0 ++ rest) = false) by (destruct v11; reflexivity).
   rewrite Hn. cbn [andb].
-  rewrite next_line_crlf; [|apply join_no_crlf; cbn [forallb]; rewrite version_tok, num_tok, Hr by assumption; reflexivity|exact HL].
+  rewrite next_line_eol; [|apply join_no_crlf; cbn [forallb]; rewrite version_tok, num_tok, Hr by assumption; reflexivity|exact HL].
   rewrite parse_status_line_ok by assumption.
   apply negb_true_iff in Hn100. rewrite Hn100.
   replace (response_version (version_str v11)) with (Some (if v11 then 1 else 0)) by (destruct v11; reflexivity).
@@ -623,7 +650,7 @@ Proof.
 Qed.
 
 (* RESPONSE with a body of announced length (Content-Length, or 204 / 304 / 1xx / HEAD: 0) *)
-Lemma response_fixed_roundtrip cf hr v11 ds reason lines body rest :
+Lemma response_fixed_roundtrip cf hr v11 ds reason e0 lines e1 body rest :
   0 <= maxline cf ->
   status_ok ds = true -> forallb tok_ok reason = true ->
   len (status_line v11 ds reason) <= maxline cf ->
@@ -632,7 +659,7 @@ Lemma response_fixed_roundtrip cf hr v11 ds reason lines body rest :
   is_chunked (hdrs_of lines) = false ->
   response_length hr (dval 10 ds 0) (hdrs_of lines) = Some (len body) ->
   http_feed cf (init_pst true hr, [])
-            (head_bytes (status_line v11 ds reason) lines ++ body ++ rest)
+            (head_bytes (status_line v11 ds reason) e0 lines e1 ++ body ++ rest)
   = (with_body (resp_headed hr v11 (dval 10 ds 0) reason lines) body [], rest).
 Proof.
   intros H0 Hs Hr HL Hok Hlen Hmax Hch Hrl.
@@ -640,7 +667,7 @@ Proof.
   unfold head_bytes. rewrite <- !app_assoc.
   eapply reach_step; [apply step_start_resp; assumption|].
   eapply reach_trans.
-  - apply (leader_reach cf SLeader head_done (step_leader cf) H0 lines _ [] (body ++ rest)); try assumption.
+  - apply (leader_reach cf SLeader head_done (step_leader cf) H0 lines _ [] e1 (body ++ rest)); try assumption.
     + reflexivity.
     + cbn [length]. lia.
   - apply reach_one.
@@ -667,7 +694,7 @@ Proof.
       cbn [set_body p_body p_parms p_trails] in IH. rewrite <- app_assoc in IH. exact IH.
 Qed.
 
-Lemma response_close_roundtrip cf hr v11 ds reason lines body :
+Lemma response_close_roundtrip cf hr v11 ds reason e0 lines e1 body :
   0 <= maxline cf ->
   status_ok ds = true -> forallb tok_ok reason = true ->
   len (status_line v11 ds reason) <= maxline cf ->
@@ -675,20 +702,20 @@ Lemma response_close_roundtrip cf hr v11 ds reason lines body :
   Z.of_nat (length lines) <= maxhdrs cf ->
   is_chunked (hdrs_of lines) = false ->
   response_length hr (dval 10 ds 0) (hdrs_of lines) = None ->
-  http_close cf (http_feed cf (init_pst true hr, []) (head_bytes (status_line v11 ds reason) lines ++ body))
+  http_close cf (http_feed cf (init_pst true hr, []) (head_bytes (status_line v11 ds reason) e0 lines e1 ++ body))
   = (with_body (resp_headed hr v11 (dval 10 ds 0) reason lines) body [], []).
 Proof.
   intros H0 Hs Hr HL Hok Hlen Hmax Hch Hrl.
   assert (Hst : p_stage (resp_headed hr v11 (dval 10 ds 0) reason lines) = SUntil).
   { unfold resp_headed, head_done. cbn [set_stage set_start init_pst p_resp p_headreq p_status].
     rewrite Hch, Hrl. reflexivity. }
-  assert (F : http_feed cf (init_pst true hr, []) (head_bytes (status_line v11 ds reason) lines ++ body)
+  assert (F : http_feed cf (init_pst true hr, []) (head_bytes (status_line v11 ds reason) e0 lines e1 ++ body)
               = (set_body (resp_headed hr v11 (dval 10 ds 0) reason lines) body [] [] SUntil, [])).
   { apply feed_reach.
     - unfold head_bytes. rewrite <- !app_assoc.
       eapply reach_step; [apply step_start_resp; assumption|].
       eapply reach_trans.
-      + apply (leader_reach cf SLeader head_done (step_leader cf) H0 lines _ [] body); try assumption.
+      + apply (leader_reach cf SLeader head_done (step_leader cf) H0 lines _ [] e1 body); try assumption.
         * reflexivity.
         * cbn [length]. lia.
       + change (fold_lines lines []) with (hdrs_of lines).
@@ -717,19 +744,18 @@ Lemma num_props ds : digits_ok 16 ds = true ->
   no_ws is_ws_b (num ds) = true /\ existsb (fun c => 127 <? c) (num ds) = false.
 Proof.
   intros Hok.
-  assert (A : forall x, In x (num ds) -> exists d, x = dchar d /\ 0 <= d < 16).
+  assert (A : forall x, In x (num ds) -> exists d, x = dchar d /\ 0 <= d < dbound 16).
   { intros x Hx. unfold num in Hx. apply in_map_iff in Hx. destruct Hx as [d [<- Hd]].
-    unfold digits_ok in Hok. rewrite forallb_forall in Hok. specialize (Hok d Hd).
-    apply andb_true_iff in Hok. destruct Hok as [H0 H1]. apply Z.leb_le in H0. apply Z.ltb_lt in H1. eauto. }
-  assert (R : forall d, 0 <= d < 16 -> 48 <= dchar d <= 102 /\ dchar d <> 59).
-  { intros d Hd. unfold dchar. destruct (d <? 10) eqn:E; [apply Z.ltb_lt in E|apply Z.ltb_ge in E]; lia. }
+    exists d. split; [reflexivity|]. exact (digits_ok_in 16 ds d Hok Hd). }
+  assert (R : forall d, 0 <= d < dbound 16 -> 48 <= dchar d <= 102 /\ dchar d <> 59).
+  { intros d Hd. pose proof (dchar_range 16 d (or_intror eq_refl) Hd). lia. }
   repeat split.
   - unfold no_crlf. apply forallb_forall. intros x Hx. destruct (A x Hx) as [d [-> Hd]].
     destruct (R d Hd). apply andb_true_iff. split; apply negb_true_iff; apply Z.eqb_neq; lia.
   - apply forallb_forall. intros x Hx. destruct (A x Hx) as [d [-> Hd]].
     destruct (R d Hd). apply negb_true_iff; apply Z.eqb_neq; lia.
   - unfold no_ws. apply forallb_forall. intros x Hx. destruct (A x Hx) as [d [-> Hd]].
-    destruct (dchar_facts 16 d ltac:(lia) Hd) as [_ [_ [_ [_ [_ [_ W]]]]]]. rewrite W. reflexivity.
+    destruct (dchar_facts 16 d (or_intror eq_refl) Hd) as [_ [_ [_ [_ [_ [_ W]]]]]]. rewrite W. reflexivity.
   - destruct (existsb _ (num ds)) eqn:E; [|reflexivity]. apply existsb_exists in E.
     destruct E as [x [Hx Hg]]. destruct (A x Hx) as [d [-> Hd]]. destruct (R d Hd). apply Z.ltb_lt in Hg. lia.
 Qed.
@@ -814,7 +840,7 @@ Lemma parse_chunk_size_line ds es : ds <> [] -> digits_ok 16 ds = true -> len ds
 Proof.
   intros Hne Hok Hlen Hes. destruct (num_props ds Hok) as [_ [Hsc [Hws Hasc]]].
   unfold parse_chunk_size, part2, size_line.
-  pose proof (dval_nonneg 16 ltac:(lia) ds 0 Hok ltac:(lia)) as P.
+  pose proof (dval_nonneg 16 (or_intror eq_refl) ds 0 Hok ltac:(lia)) as P.
   destruct es as [|e es].
   - cbn [render_exts flat_map]. rewrite app_nil_r. rewrite partition_at_absent by exact Hsc.
     rewrite strip_no_ws by exact Hws. rewrite Hasc.
@@ -910,7 +936,7 @@ Lemma zeros_val : forall zs acc, forallb (fun d => d =? 0) zs = true -> dval 16 
 Proof.
   induction zs as [|z zs IH]; intros acc H; [cbn; lia|].
   cbn [forallb] in H. apply andb_true_iff in H. destruct H as [Hz Hzs]. apply Z.eqb_eq in Hz. subst.
-  cbn [dval fold_left]. fold (dval 16 zs (acc * 16 + 0)). rewrite IH by exact Hzs.
+  cbn [dval fold_left]. change (dv 0) with 0. fold (dval 16 zs (acc * 16 + 0)). rewrite IH by exact Hzs.
   cbn [length]. rewrite Nat2Z.inj_succ, Z.pow_succ_r by lia. lia.
 Qed.
 
@@ -924,12 +950,12 @@ Lemma step_trailer cf s p h b : p_stage s = STrailer p h ->
 Proof. intros Hs. unfold http_step. rewrite Hs. reflexivity. Qed.
 
 (* from the first chunk size line to the end of the trailers *)
-Lemma chunked_body_reach cf chunks zs les trailers rest s :
+Lemma chunked_body_reach cf chunks zs les trailers e2 rest s :
   0 <= maxline cf -> forallb (chunk_ok cf) chunks = true -> zeros_ok cf zs les = true ->
   forallb hline_ok trailers = true -> forallb (line_len_ok cf) trailers = true ->
   Z.of_nat (length trailers) <= maxhdrs cf ->
   p_stage s = SChunkSize ->
-  reach cf false s (chunked_bytes chunks zs les trailers ++ rest)
+  reach cf false s (chunked_bytes chunks zs les trailers e2 ++ rest)
         (set_body s (p_body s ++ concat (map ch_data chunks)) (parms_of chunks les (p_parms s))
                   (fold_lines trailers []) SDone) rest.
 Proof.
@@ -951,13 +977,13 @@ Proof.
   eapply reach_trans.
   - apply (leader_reach cf (STrailer (exts_map les))
                         (fun s h => set_body s (p_body s) (aupdate (p_parms s) (exts_map les)) h SDone)
-                        (fun s h b Hs => step_trailer cf s (exts_map les) h b Hs) H0 trailers _ [] rest); try assumption.
+                        (fun s h b Hs => step_trailer cf s (exts_map les) h b Hs) H0 trailers _ [] e2 rest); try assumption.
     + reflexivity.
     + cbn [length]. lia.
   - apply reach_refl.
 Qed.
 
-Lemma request_chunked_roundtrip cf method url v11 lines chunks zs les trailers rest :
+Lemma request_chunked_roundtrip cf method url v11 e0 lines e1 chunks zs les trailers e2 rest :
   0 <= maxline cf ->
   tok_ok method = true -> existsb (beq method) METHODS = true -> tok_ok url = true -> url_ok cf url = true ->
   len (request_line method url v11) <= maxline cf ->
@@ -968,7 +994,7 @@ Lemma request_chunked_roundtrip cf method url v11 lines chunks zs les trailers r
   forallb hline_ok trailers = true -> forallb (line_len_ok cf) trailers = true ->
   Z.of_nat (length trailers) <= maxhdrs cf ->
   http_feed cf (init_pst false false, [])
-            (head_bytes (request_line method url v11) lines ++ chunked_bytes chunks zs les trailers ++ rest)
+            (head_bytes (request_line method url v11) e0 lines e1 ++ chunked_bytes chunks zs les trailers e2 ++ rest)
   = (with_chunked (req_headed method url v11 lines) (concat (map ch_data chunks)) (parms_of chunks les [])
                   (hdrs_of trailers), rest).
 Proof.
@@ -977,21 +1003,21 @@ Proof.
   unfold head_bytes. rewrite <- !app_assoc.
   eapply reach_step; [apply step_start_req; assumption|].
   eapply reach_trans.
-  - apply (leader_reach cf SLeader head_done (step_leader cf) H0 lines _ []
-                        (chunked_bytes chunks zs les trailers ++ rest)); try assumption.
+  - apply (leader_reach cf SLeader head_done (step_leader cf) H0 lines _ [] e1
+                        (chunked_bytes chunks zs les trailers e2 ++ rest)); try assumption.
     + reflexivity.
     + cbn [length]. lia.
   - change (fold_lines lines []) with (hdrs_of lines).
     assert (Hst : p_stage (req_headed method url v11 lines) = SChunkSize).
     { unfold req_headed, head_done. cbn [set_stage set_start init_pst p_resp]. rewrite Hch. reflexivity. }
-    pose proof (chunked_body_reach cf chunks zs les trailers rest (req_headed method url v11 lines)
+    pose proof (chunked_body_reach cf chunks zs les trailers e2 rest (req_headed method url v11 lines)
                   H0 Hcs Hzs Tok Tlen Tmax Hst) as R.
     assert (Hb : p_body (req_headed method url v11 lines) = [] /\ p_parms (req_headed method url v11 lines) = []).
     { unfold req_headed, head_done. cbn [set_stage set_start init_pst p_resp]. rewrite Hch. split; reflexivity. }
     destruct Hb as [Hb Hp]. rewrite Hb, Hp in R. exact R.
 Qed.
 
-Lemma response_chunked_roundtrip cf hr v11 ds reason lines chunks zs les trailers rest :
+Lemma response_chunked_roundtrip cf hr v11 ds reason e0 lines e1 chunks zs les trailers e2 rest :
   0 <= maxline cf ->
   status_ok ds = true -> forallb tok_ok reason = true ->
   len (status_line v11 ds reason) <= maxline cf ->
@@ -1002,7 +1028,7 @@ Lemma response_chunked_roundtrip cf hr v11 ds reason lines chunks zs les trailer
   forallb hline_ok trailers = true -> forallb (line_len_ok cf) trailers = true ->
   Z.of_nat (length trailers) <= maxhdrs cf ->
   http_feed cf (init_pst true hr, [])
-            (head_bytes (status_line v11 ds reason) lines ++ chunked_bytes chunks zs les trailers ++ rest)
+            (head_bytes (status_line v11 ds reason) e0 lines e1 ++ chunked_bytes chunks zs les trailers e2 ++ rest)
   = (with_chunked (resp_headed hr v11 (dval 10 ds 0) reason lines) (concat (map ch_data chunks))
                   (parms_of chunks les []) (hdrs_of trailers), rest).
 Proof.
@@ -1011,14 +1037,14 @@ Proof.
   unfold head_bytes. rewrite <- !app_assoc.
   eapply reach_step; [apply step_start_resp; assumption|].
   eapply reach_trans.
-  - apply (leader_reach cf SLeader head_done (step_leader cf) H0 lines _ []
-                        (chunked_bytes chunks zs les trailers ++ rest)); try assumption.
+  - apply (leader_reach cf SLeader head_done (step_leader cf) H0 lines _ [] e1
+                        (chunked_bytes chunks zs les trailers e2 ++ rest)); try assumption.
     + reflexivity.
     + cbn [length]. lia.
   - change (fold_lines lines []) with (hdrs_of lines).
     assert (Hst : p_stage (resp_headed hr v11 (dval 10 ds 0) reason lines) = SChunkSize).
     { unfold resp_headed, head_done. cbn [set_stage set_start init_pst p_resp]. rewrite Hch. reflexivity. }
-    pose proof (chunked_body_reach cf chunks zs les trailers rest (resp_headed hr v11 (dval 10 ds 0) reason lines)
+    pose proof (chunked_body_reach cf chunks zs les trailers e2 rest (resp_headed hr v11 (dval 10 ds 0) reason lines)
                   H0 Hcs Hzs Tok Tlen Tmax Hst) as R.
     assert (Hb : p_body (resp_headed hr v11 (dval 10 ds 0) reason lines) = [] /\
                  p_parms (resp_headed hr v11 (dval 10 ds 0) reason lines) = []).
@@ -1030,3 +1056,21 @@ Qed.
 Lemma any_split_of cf resp hr data R : http_feed cf (init_pst resp hr, []) data = R ->
   forall pieces, concat pieces = data -> http_feed_all cf (init_pst resp hr, []) pieces = R.
 Proof. intros H pieces E. rewrite http_split_independent_init, E. exact H. Qed.
+
+(* ---- checkPersisted ---- *)
+Lemma persisted_http11_default s : p_version s = 1 -> aget (bz "connection") (p_headers s) = None ->
+  (p_chunked s = true \/ exists n, p_length s = Some n) -> persisted11 s = true.
+Proof.
+  intros _ Hc Hf. unfold persisted11, hdr_has. rewrite Hc.
+  destruct Hf as [Hf|[n Hf]]; rewrite Hf; [reflexivity|]. rewrite andb_false_r. reflexivity.
+Qed.
+
+Lemma persisted_close s v : aget (bz "connection") (p_headers s) = Some v -> v <> [] ->
+  contains (bz "close") (lower v) = true -> persisted11 s = false.
+Proof.
+  intros Hc Hn Hk. unfold persisted11, hdr_has. rewrite Hc, Hk. destruct v; [congruence|reflexivity].
+Qed.
+
+Lemma req_persisted_http10 s : p_version s = 0 ->
+  req_persisted s = hdr_has (bz "connection") (bz "keep-alive") (p_headers s).
+Proof. intros H. unfold req_persisted. rewrite H. reflexivity. Qed.
